@@ -252,7 +252,27 @@ def driver(name):
 
 # --------------------------------------------------------------------------- batches
 
-def run_batch(cmd, requests, hang_s=5.0, env=None, mem_kb=4_000_000, label="", max_failures=6):
+def run_batch(cmd, requests, hang_s=5.0, env=None, mem_kb=4_000_000, label="", max_failures=6, confirm_hangs=True):
+    """see _run_batch; a request reported as `hang` is re-run ALONE with four times the limit before the
+    hang is believed (a loaded machine must not turn a slow request into an alarm)"""
+    replies = _run_batch(cmd, requests, hang_s, env, mem_kb, label, max_failures)
+    if confirm_hangs:
+        for i, r in enumerate(replies):
+            if r == "hang":
+                again = _run_batch(cmd, [requests[i]], hang_s * 4 + 5, env, mem_kb, label, 1)
+                if again and again[0] is not None and again[0] != "hang":
+                    replies[i] = again[0]
+        if any(r is not None and r.startswith("skipped (too many") for r in replies):
+            # requests skipped after the failure cap: run them now that the slow ones are settled
+            idx = [i for i, r in enumerate(replies) if r is not None and r.startswith("skipped (too many")]
+            if not any(r == "hang" or (r or "").startswith("died") for r in replies):
+                sub = _run_batch(cmd, [requests[i] for i in idx], hang_s * 2, env, mem_kb, label, max_failures)
+                for i, r in zip(idx, sub):
+                    replies[i] = r
+    return replies
+
+
+def _run_batch(cmd, requests, hang_s=5.0, env=None, mem_kb=4_000_000, label="", max_failures=6):
     """Send requests (strings without newline) to a line-protocol process; returns replies.
     A request on which the process dies gets 'died <tail of stderr>', one on which it makes no
     progress for hang_s seconds gets 'hang'; the process is restarted after the culprit."""
